@@ -60,6 +60,22 @@ func xsearch(toks []string) string {
 	var series []geometry.Series
 	series = append(series, geometry.VerifNewRing(pts, opts))
 	series = append(series, geometry.VerifLineSeries(geometry.NewLine(pts, opts)))
+	// moved (translated) series: Move must leave a series that answers as an index-free one would,
+	// whatever the index kind / threshold it was created with and whatever rounding the translation causes
+	for _, mp := range []int{1, 8, 64} {
+		mopts := &geometry.IndexOptions{Kind: kinds[kind], MinPoints: mp}
+		dx := []float64{0.3, 0.1, 1e-7, 1, -0.7, 1024.5}[r.intn(6)]
+		dy := []float64{0, 0.2, -1e-9, 3, 0.3}[r.intn(5)]
+		if layout == 0 || layout == 1 || layout == 4 {
+			dx, dy = wildFloat(r, 2), wildFloat(r, 5)
+		}
+		series = append(series, geometry.VerifLineSeries(geometry.NewLine(pts, mopts).Move(dx, dy)))
+		if n >= 3 {
+			if ext, ok := geometry.NewPoly(pts, nil, mopts).Move(dx, dy).Exterior.(geometry.Series); ok {
+				series = append(series, ext)
+			}
+		}
+	}
 	for si, s := range series {
 		nseg := s.NumSegments()
 		for qi := 0; qi < 6; qi++ {
